@@ -22,3 +22,8 @@ Definition chk_cb (c : bytes * list (N * doc) * (list (N * doc) * list N) * list
   list_eqb bytes_eqb
     (flat_map (fun vb => match lookup_doc dump vb, checkpoint_id g vb with Some _, Some k => [k] | _, _ => [] end) dirty) keys &&
   forallb is_meta keys.
+
+(* one read-only wrapper object over a history: what each load through it returned *)
+Definition chk_ro_seq (c : option (list (N * doc)) * list ro_step * list (list (N * doc) * bool)) : bool :=
+  let '(f0, steps, obs) := c in
+  list_eqb (fun m o => docs_eqb (fst m) (fst o) && Bool.eqb (snd m) (snd o)) (snd (ro_run f0 steps)) obs.
